@@ -5380,11 +5380,13 @@ Qed.
 
 Lemma log_ok_benign s l l' :
   Forall (ev_benign s) l -> (forall n, inGraph (nd s n) = true -> lastNU l' n = Some true) ->
+  (forall n, inGraph (nd s n) = true -> EvInval n ∉ l') ->
   log_ok l' -> log_ok (l ++ l').
 Proof.
-  intros Hl Hreg Hok. induction l as [|e l IH]; [exact Hok|].
+  intros Hl Hreg Hinv Hok. induction l as [|e l IH]; [exact Hok|].
   apply stdpp.list.Forall_cons in Hl as [He Hl]. simpl. split; [|apply IH, Hl].
-  destruct e; simpl in *; try contradiction; try exact I; rewrite (lastNU_benign s l l' _ Hl); apply Hreg, He.
+  destruct e; simpl in *; try contradiction; try exact I;
+    (split; [rewrite (lastNU_benign s l l' _ Hl); apply Hreg, He|rewrite (benign_inval s l l' _ Hl); apply Hinv, He]).
 Qed.
 
 Lemma PInv_soft s s' l :
@@ -5424,7 +5426,8 @@ Proof.
     + apply (count_ok_ext s s'); auto.
     + apply (obs_ok_ext s s'); auto.
     + intros n. rewrite Hg, Hv. apply t_valid0.
-    + rewrite Hlog. apply (log_ok_benign s); auto. intros n Hn. apply (t_life0 n (Hnil n)), Hn.
+    + rewrite Hlog. apply (log_ok_benign s); auto; [intros n Hn; apply (t_life0 n (Hnil n)), Hn|].
+      intros n Hn Hx. apply Iinval in Hx. rewrite (t_valid0 n Hn) in Hx. discriminate.
     + intros n _. rewrite Hg, Hlog, (lastNU_benign s l _ n Hl). apply t_life0, Hnil.
     + intros w Hw. inversion Hw.
     + constructor.
@@ -6094,7 +6097,8 @@ Proof.
   - apply (shape_ok_ext s s'); auto.
   - apply Hst, Istamps.
   - split.
-    + rewrite Hlog. apply (log_ok_benign s); auto. intros n Hn. apply (t_life0 n (Hnil n)), Hn.
+    + rewrite Hlog. apply (log_ok_benign s); auto; [intros n Hn; apply (t_life0 n (Hnil n)), Hn|].
+      intros n Hn Hx. apply Iinval in Hx. rewrite (t_valid0 n Hn) in Hx. discriminate.
     + intros n. rewrite Hg, Hlog, (lastNU_benign s l _ n Hl). apply t_life0, Hnil.
     + intros n. rewrite Hv, Hlog, (benign_inval s l _ n Hl). apply Iinval.
 Qed.
@@ -6930,9 +6934,10 @@ Lemma TInv_dyn E s s' l :
   reg s' = reg s -> obs s' = obs s -> heap s' = heap s -> numNodes s' = numNodes s ->
   maxHeight s' = maxHeight s -> log s' = l ++ log s -> Forall (ev_benign s) l ->
   (forall n, has s n -> binds s !! n = None -> binds s' !! n = None) ->
+  (l = [] \/ forall n, inGraph (nd s n) = true -> EvInval n ∉ log s) ->
   TInv [] E s -> TInv [] E s'.
 Proof.
-  intros Hids Hnext Hh1 Hh2 Hdyn Hdecl Hscope Hreg Hobs Hheap Hnum Hmh Hlog Hl Hbn T.
+  intros Hids Hnext Hh1 Hh2 Hdyn Hdecl Hscope Hreg Hobs Hheap Hnum Hmh Hlog Hl Hbn Hni T.
   destruct T as [t_edges0 t_zero0 t_nec0 t_necE0 t_W0 t_par0 t_height0 t_heap0 t_count0 t_obs0 t_valid0 t_log0 t_life0 t_lifeW0 t_nodup0].
   assert (Hg : forall m, inGraph (nd s' m) = inGraph (nd s m)) by (intros m; apply (Hdyn m)).
   assert (Hp : forall m, parents (nd s' m) = parents (nd s m)) by (intros m; apply (Hdyn m)).
@@ -6951,7 +6956,8 @@ Proof.
   - apply (extend_count s s' Hdyn Hreg Hobs Hnum t_count0).
   - apply (extend_obs s s' Hnext Hh1 Hh2 Hdyn Hdecl Hscope Hobs Hbn Hids t_obs0).
   - intros n. rewrite Hg, Hv. apply t_valid0.
-  - rewrite Hlog. apply (log_ok_benign s); auto. intros n Hn.
+  - rewrite Hlog. destruct Hni as [->|Hni]; [exact t_log0|].
+    apply (log_ok_benign s); auto. intros n Hn.
     apply (t_life0 n ltac:(intros Hw; inversion Hw)), Hn.
   - intros n Hn. rewrite Hg, Hlog, (lastNU_benign s l _ n Hl). apply t_life0, Hn.
   - intros n Hn. rewrite Hlog, (lastNU_benign s l _ n Hl). apply t_lifeW0, Hn.
@@ -7096,9 +7102,10 @@ Section finish.
   Qed.
 End finish.
 
-Lemma TInv_soft E s s' : soft s s' -> hreg_ok s -> TInv [] E s -> TInv [] E s'.
+Lemma TInv_soft E s s' :
+  soft s s' -> hreg_ok s -> (forall n, inGraph (nd s n) = true -> EvInval n ∉ log s) -> TInv [] E s -> TInv [] E s'.
 Proof.
-  intros S Hr T. destruct (so_log _ _ S) as (l & Hl & Fl).
+  intros S Hr Hni T. destruct (so_log _ _ S) as (l & Hl & Fl).
   pose proof (so_struct _ _ S) as SS.
   assert (Hk : heap_ok s') by (apply (so_heap _ _ S); [apply T|exact Hr]).
   destruct T as [t_edges0 t_zero0 t_nec0 t_necE0 t_W0 t_par0 t_height0 t_heap0 t_count0 t_obs0 t_valid0 t_log0 t_life0 t_lifeW0 t_nodup0].
@@ -7249,6 +7256,47 @@ Proof.
   - destruct (observers (nd s b)) as [|o l] eqn:Eo; [congruence|].
     assert (Ho : o ∈ observers (nd s b)) by (rewrite Eo; left).
     apply (ob_iff s Hobs) in Ho. rewrite (ob_user s Hobs o b Ho) in Hr. discriminate.
+Qed.
+
+(* what the pieces of a bind's stabilization add to the log *)
+Lemma setStale_log s n s' : setStale s n = Ok s' -> log s' = log s.
+Proof.
+  intros H. apply setStale_inv in H as [[_ ->]|[_ H]]; [reflexivity|]. cbn zeta in H.
+  destruct H as [[_ ->]|[_ H]]; [reflexivity|]. apply heapAdd_inv in H as (w & _ & ->). reflexivity.
+Qed.
+
+Lemma varSet_log s v x s' : varSet s v x = Ok s' -> log s' = log s.
+Proof.
+  unfold varSet. destruct (_ && _ && _); [intros [= <-]; reflexivity|].
+  destruct (status s =? 1); [intros [= <-]; reflexivity|].
+  destruct (isNecessary _); [|intros [= <-]; reflexivity]. intros H. apply setStale_log in H. exact H.
+Qed.
+
+Lemma applyActions_log acts : forall s s' f0 f,
+  rfold (fun '(s, f) a =>
+           match f with
+           | Some _ => Ok (s, f)
+           | None =>
+             match a with
+             | AFail k => Ok (s, Some k)
+             | ASet v x => s <-! varSet s v x; Ok (s, None)
+             | AUpdate v d => s <-! varUpdate s v d; Ok (s, None)
+             end
+           end) acts (s, f0) = Ok (s', f) -> log s' = log s.
+Proof.
+  induction acts as [|a acts IH]; intros s s' f0 f H; simpl in H; [injection H as <- _; reflexivity|].
+  apply rbind_ok in H as ([s1 f1] & H1 & H). rewrite (IH s1 s' f1 f H).
+  destruct f0; [injection H1 as <- _; reflexivity|]. destruct a as [k|v x|v d].
+  - injection H1 as <- _. reflexivity.
+  - apply rbind_ok in H1 as (s2 & H2 & [= <- _]). apply (varSet_log _ _ _ _ H2).
+  - apply rbind_ok in H1 as (s2 & H2 & [= <- _]). unfold varUpdate in H2. apply (varSet_log _ _ _ _ H2).
+Qed.
+
+Lemma invoke_log_none p s n w s' : invoke p s n w = Ok (s', None) -> log s' = log s.
+Proof.
+  intros H. unfold invoke in H. apply rbind_ok in H as ([s1 f] & H1 & H).
+  unfold applyActions in H1. pose proof (applyActions_log _ _ _ _ _ H1) as E1.
+  destruct f as [[|]|]; try discriminate. injection H as <-. exact E1.
 Qed.
 
 Lemma isVar_intro s n e : has s n -> nkind (nd s n) = KVar e -> isVar s n = true.
@@ -7455,6 +7503,9 @@ Section run_fn.
       + intros n Hn Hnone. destruct (decide (n = b)) as [->|Hne].
         * exfalso. rewrite Hb2 in Hnone. unfold s1 in Hnone. rewrite binds_updb_lookup, decide_True, Hr0 in Hnone by reflexivity. discriminate.
         * rewrite Hb6ne by exact Hne. apply (eb_bindsN _ _ _ E23 n Hn Hnone).
+      + right. intros n Hn. destruct (Hst2 n) as (_&_&_&_&_&_&_&_&_&_&Eg). rewrite Eg in Hn.
+        destruct Hlog2 as (l & El & Fl). rewrite El, (benign_inval s l (log s) n Fl). intros Hx.
+        apply A8 in Hx. rewrite (t_valid _ _ _ T0 n Hn) in Hx. discriminate.
     - (* the rest, with the old generation exempt *)
       constructor; try assumption.
       + intros n. rewrite Hsc7, Hv7, Hv3. intros Hs.
@@ -7579,6 +7630,12 @@ Section run_fn.
         rewrite E, (Hold3 v Hh). destruct (Hst2 v) as (->&_). exact He. }
       destruct a; auto.
     - change (stabNum s7) with (stabNum s3). rewrite (eb_stabNum _ _ _ E23). apply (so_stabNum _ _ S02).
+  Qed.
+  Lemma run_fn_log : log s6 = EvBindFn b x root :: log s.
+  Proof.
+    destruct run_fn_inst as (T & d0 & _ & _ & E23 & _).
+    change (log s6) with (EvBindFn b x root :: log s3). rewrite (eb_log _ _ _ E23).
+    rewrite (invoke_log_none p s1 b WFn s2 Hinv). reflexivity.
   Qed.
 End run_fn.
 
@@ -7765,35 +7822,56 @@ Proof.
   - constructor.
 Qed.
 
+(* log extensions without any event that reports a function, a cutoff predicate or a bind function as run *)
+Definition norun_ext (s s' : state) : Prop :=
+  exists l, log s' = l ++ log s /\ Forall (fun e => ev_runs e = None) l.
+
+Lemma norun_ext_refl s s' : log s' = log s -> norun_ext s s'.
+Proof. intros E. exists []. split; [exact E|constructor]. Qed.
+
+Lemma norun_ext_trans s1 s2 s3 : norun_ext s1 s2 -> norun_ext s2 s3 -> norun_ext s1 s3.
+Proof.
+  intros (l1 & E1 & F1) (l2 & E2 & F2). exists (l2 ++ l1). split; [rewrite E2, E1, app_assoc; reflexivity|].
+  apply Forall_app. auto.
+Qed.
+
+Lemma norun_ext_of (P : event -> Prop) s s' :
+  (forall e, P e -> ev_runs e = None) -> (exists l, log s' = l ++ log s /\ Forall P l) -> norun_ext s s'.
+Proof. intros HP (l & E & F). exists l. split; [exact E|]. eapply List.Forall_impl; [|exact F]. exact HP. Qed.
+
 (** ** what [changeParent] leaves untouched *)
 Record cp_frame (s s' : state) : Prop := {
   cpf_binds : binds s' = binds s;
   cpf_has : forall m, has s' m <-> has s m;
   cpf_stabNum : stabNum s' = stabNum s;
   cpf_node : forall m, nkind (nd s' m) = nkind (nd s m) /\ decl (nd s' m) = decl (nd s m) /\
-                       scope (nd s' m) = scope (nd s m) /\ valid (nd s' m) = valid (nd s m)
+                       scope (nd s' m) = scope (nd s m) /\ valid (nd s' m) = valid (nd s m);
+  cpf_log : norun_ext s s'
 }.
 
 Lemma cp_frame_refl s : cp_frame s s.
-Proof. split; auto; reflexivity. Qed.
+Proof. split; auto; try reflexivity. apply norun_ext_refl. reflexivity. Qed.
 
 Lemma cp_frame_trans s1 s2 s3 : cp_frame s1 s2 -> cp_frame s2 s3 -> cp_frame s1 s3.
 Proof.
-  intros [A1 A2 A3 A4] [B1 B2 B3 B4]. split.
+  intros [A1 A2 A3 A4 A5] [B1 B2 B3 B4 B5]. split.
   - congruence.
   - intros m. rewrite B2. apply A2.
   - congruence.
   - intros m. destruct (A4 m) as (?&?&?&?), (B4 m) as (?&?&?&?). repeat split; congruence.
+  - eapply norun_ext_trans; eauto.
 Qed.
 
 Lemma cp_frame_td s s' : td_frame s s' -> (forall m, valid (nd s' m) = valid (nd s m)) -> cp_frame s s'.
 Proof.
-  intros F Hv. split; try apply F. intros m. destruct (tf_static _ _ F m) as (?&?&?&_). auto.
+  intros F Hv. split; try apply F; [intros m; destruct (tf_static _ _ F m) as (?&?&?&_); auto|].
+  apply (norun_ext_of is_unnec); [intros e [n ->]; reflexivity|apply (tf_log _ _ F)].
 Qed.
 
 Lemma cp_frame_ac s s' : ac_frame s s' -> cp_frame s s'.
 Proof.
-  intros F. split; try apply F. intros m. destruct (cf_static _ _ F m) as (?&?&?&?&_). auto.
+  intros F. split; try apply F; [intros m; destruct (cf_static _ _ F m) as (?&?&?&?&_); auto|].
+  apply (norun_ext_of is_nec); [intros e [n ->]; reflexivity|apply (cf_log _ _ F)].
 Qed.
 
 Section cp.
@@ -7997,7 +8075,7 @@ Section cp.
 
   Local Lemma cp_frame7A o : cp_frame t7 (unlink t7 c o).
   Proof.
-    split; try reflexivity; [intros m; apply has_unlink|].
+    split; try reflexivity; [intros m; apply has_unlink| |apply norun_ext_refl; reflexivity].
     intros m. rewrite nkind_nd_unlink, decl_nd_unlink, scope_nd_unlink, valid_nd_unlink. auto.
   Qed.
 
@@ -8152,9 +8230,9 @@ Section cp.
       + rewrite nd_upd_eq by exact HhC. reflexivity.
       + rewrite nd_upd_ne by exact Hno. destruct (cf_static _ _ FC n) as (_&_&_&_&->&_). rewrite HforB by exact Hno. apply Hforce.
     - apply (cp_frame_trans t7 tD t8); [|apply (cp_frame_td tD t8 F Hv)].
-      apply (cp_frame_trans t7 tC tD); [|split; [reflexivity|intros m; apply has_upd|reflexivity|intros m; repeat split; apply HfD; reflexivity]].
+      apply (cp_frame_trans t7 tC tD); [|split; [reflexivity|intros m; apply has_upd|reflexivity|intros m; repeat split; apply HfD; reflexivity|apply norun_ext_refl; reflexivity]].
       apply (cp_frame_trans t7 tB tC); [|apply (cp_frame_ac tB tC FC)].
-      split; [reflexivity|exact HhasB|reflexivity|].
+      split; [reflexivity|exact HhasB|reflexivity| |apply norun_ext_refl; reflexivity].
       intros m. rewrite HdeclB. repeat split; first [apply HfB; reflexivity|idtac].
       + rewrite (HfB _ nkind) by reflexivity. apply nkind_nd_unlink.
       + rewrite (HfB _ scope) by reflexivity. apply scope_nd_unlink.
@@ -8925,12 +9003,60 @@ Proof.
   split; [|eauto]. destruct k; injection H as _ <-; auto.
 Qed.
 
+Lemma invoke_norun p s n w s' e : invoke p s n w = Ok (s', e) -> norun_ext s s'.
+Proof.
+  intros H. unfold invoke in H. apply rbind_ok in H as ([s1 f] & H1 & H).
+  unfold applyActions in H1. pose proof (applyActions_log _ _ _ _ _ H1) as E1.
+  destruct f as [[|]|]; injection H as <- _.
+  - exists [EvFault n w FErr]. split; [simpl; rewrite E1; reflexivity|repeat constructor].
+  - exists [EvFault n w FPanic]. split; [simpl; rewrite E1; reflexivity|repeat constructor].
+  - apply norun_ext_refl, E1.
+Qed.
+
+Lemma rfold_norun {A} (f : state -> A -> res state) l : forall s s',
+  (forall st a st', f st a = Ok st' -> norun_ext st st') -> rfold f l s = Ok s' -> norun_ext s s'.
+Proof.
+  induction l as [|a l IH]; intros s s' Hf H; simpl in H; [injection H as <-; apply norun_ext_refl; reflexivity|].
+  apply rbind_ok in H as (s1 & H1 & H). eapply norun_ext_trans; [apply (Hf _ _ _ H1)|apply (IH _ _ Hf H)].
+Qed.
+
+Lemma invalidateNode_norun fuel : forall s n s', invalidateNode fuel s n = Ok s' -> norun_ext s s'.
+Proof.
+  induction fuel as [|fuel IH]; intros s n s' H; [discriminate|]. rewrite invalidateNode_S in H.
+  destruct (negb (valid (nd s n))); [injection H as <-; apply norun_ext_refl; reflexivity|].
+  cbv zeta in H. set (s1 := upd (emit (EvInval n) s) n _) in H.
+  assert (N1 : norun_ext s s1) by (exists [EvInval n]; split; [reflexivity|repeat constructor]).
+  apply rbind_ok in H as (s2 & H2 & H).
+  assert (N2 : norun_ext s1 s2).
+  { destruct (isNecessary (nd s1 n)); [|injection H2 as <-; apply norun_ext_refl; reflexivity].
+    apply rbind_ok in H2 as (s3 & H3 & [= <-]).
+    eapply norun_ext_trans; [|apply norun_ext_refl; reflexivity].
+    apply (norun_ext_of is_unnec); [intros e [m ->]; reflexivity|].
+    apply (tf_log _ _ (proj1 (teardown_frame fuel) s1 n s3 H3)). }
+  apply rbind_ok in H as (s4 & H4 & H).
+  assert (N4 : norun_ext s2 s4).
+  { destruct (nkind (nd s2 n)); try (injection H4 as <-; apply norun_ext_refl; reflexivity).
+    apply (rfold_norun _ _ _ _ (fun st a st' Ha => IH st a st' Ha) H4). }
+  eapply norun_ext_trans; [exact N1|]. eapply norun_ext_trans; [exact N2|]. eapply norun_ext_trans; [exact N4|].
+  match type of H with (if ?c then _ else _) = _ => destruct c end.
+  - apply heapRemove_inv in H as (w & _ & ->). apply norun_ext_refl. reflexivity.
+  - injection H as <-. apply norun_ext_refl. reflexivity.
+Qed.
+
+Lemma invalidate_loop_norun fuel l s s' : rfold (invalidateNode fuel) l s = Ok s' -> norun_ext s s'.
+Proof. apply rfold_norun. intros st a st'. apply invalidateNode_norun. Qed.
+
 Theorem bind_full fuel p s b s' e :
   PInv s -> plan_ok s p = true -> nkind (nd s b) = KBindLhs b -> inGraph (nd s b) = true ->
   bindLhsStabilize fuel p s b = Ok (s', e) ->
   rejected_err e \/
   (PInv s' /\ plan_ok s' p = true /\ stabNum s' = stabNum s /\ kstable s s' /\
-   (e = None \/ ((e = Some (EUser b) \/ e = Some (EPanic b)) /\ exists k, AFail k ∈ actions_of p b WFn))).
+   (e = None \/ ((e = Some (EUser b) \/ e = Some (EPanic b)) /\ exists k, AFail k ∈ actions_of p b WFn)) /\
+   (* the log of a successful run: the bind function's event, and the old generation invalidated *)
+   (e = None -> exists x root l1 l2,
+      log s' = l2 ++ EvBindFn b x root :: l1 ++ log s /\
+      Forall (fun ev => ev_runs ev = None) l1 /\ Forall (fun ev => ev_runs ev = None) l2 /\
+      (b_rhs (bd s b) <> None -> forall n, n ∈ b_rhsNodes (bd s b) -> EvInval n ∈ l2))).
 Proof.
   intros P Hp Hk Hg H.
   pose proof (p_kinds s P b (has_inGraph s b Hg)) as K. rewrite Hk in K. destruct K as [_ [r0 Hr0]].
@@ -8957,6 +9083,7 @@ Proof.
     pose proof (soft_binds_irrel s s2 _ (binds s1) S12 eq_refl) as S02.
     split; [apply (PInv_of_soft s _ P S02)|]. split; [apply (plan_ok_struct s _ p (so_struct _ _ S02) Hp)|].
     split; [apply (so_stabNum _ _ S02)|]. split; [apply kstable_struct, (so_struct _ _ S02)|].
+    split; [|intros [=]].
     right. destruct (invoke_fault p s1 b WFn s2 x1 Hinv) as [[-> | ->] Hf]; (split; [auto|exact Hf]).
   - (* the bind function returned: instantiate the chosen template *)
     set (x := valueOf s1 (b_lhs r0)) in *.
@@ -9009,7 +9136,8 @@ Proof.
     { intros m. destruct (cpf_node _ _ F8 m) as (_&_&_&->). apply Hfield7. reflexivity. }
     assert (Hk8 : forall m, nkind (nd t8 m) = nkind (nd s6 m)).
     { intros m. destruct (cpf_node _ _ F8 m) as (->&_). apply Hfield7. reflexivity. }
-    assert (P9 : PInv t9 /\ (forall m, has t9 m <-> has t8 m) /\ (forall m, nkind (nd t9 m) = nkind (nd t8 m)) /\ stabNum t9 = stabNum t8).
+    assert (P9 : PInv t9 /\ (forall m, has t9 m <-> has t8 m) /\ (forall m, nkind (nd t9 m) = nkind (nd t8 m)) /\ stabNum t9 = stabNum t8 /\
+                 norun_ext t8 t9 /\ (oldRhs <> None -> forall n, D n -> EvInval n ∈ log t9 /\ EvInval n ∉ log t8)).
     { destruct oldRhs as [o|] eqn:Eo.
       - (* the old generation is invalidated *)
         assert (HD : forall n, D n -> scope (nd t8 n) = Some b /\ ~ inGen t8 b n).
@@ -9026,20 +9154,34 @@ Proof.
         destruct (inval_loop D t8 fuel IS oldNodes [] t8 t9 J8) as (J9 & Hall & _); [|exact Hiv|].
         { intros m Hm. split; [apply dm_old; exact Hm|intros q Hq; inversion Hq]. }
         split; [apply (inval_PInv D b t8 T8 R8 Hf8 HD HDdec HDp2 t9 J9 Hall)|].
-        pose proof (j_same _ _ _ _ J9) as Sm. split; [apply Sm|]. split; [intros m; apply (is_node _ _ Sm m)|apply Sm].
-      - injection Hiv as <-. split; [|split; [reflexivity|split; reflexivity]].
+        pose proof (j_same _ _ _ _ J9) as Sm. split; [apply Sm|]. split; [intros m; apply (is_node _ _ Sm m)|]. split; [apply Sm|].
+        split; [apply (invalidate_loop_norun fuel oldNodes t8 t9 Hiv)|].
+        intros _ n Hn. split.
+        + apply (j_inval _ _ _ _ J9 n). left. apply Hall, Hn.
+        + intros Hx. apply (m_inval _ _ R8 n) in Hx. rewrite (HDv n Hn) in Hx. discriminate.
+      - injection Hiv as <-. split; [|split; [reflexivity|split; [reflexivity|split; [reflexivity|split; [apply norun_ext_refl; reflexivity|intros Hx; congruence]]]]].
         apply PInv_join; [exact T8| |exact Hf8].
         apply (RestM_impl D noD t8); [|exact R8]. intros n Hn. unfold D in Hn. rewrite Holdne in Hn. inversion Hn. }
-    destruct P9 as (P9 & Hh9 & Hk9 & Hs9).
+    destruct P9 as (P9 & Hh9 & Hk9 & Hs9 & Hl9 & Hiv9).
     apply propagateInvalidity_nil_inv in H; [|apply (pq_invq t9 (p_pq t9 P9))]. subst s'.
     split; [exact P9|]. split.
     + apply (plan_ok_kinds s7 t9 p); [| |exact Hplan7].
       * intros m. rewrite Hh9. apply (cpf_has _ _ F8).
       * intros m. rewrite Hk9. apply (cpf_node _ _ F8 m).
-    + split; [rewrite Hs9, (cpf_stabNum _ _ F8); exact Hstab7|]. split; [|left; reflexivity].
-      intros m Hm. split.
-      * apply Hh9, (cpf_has _ _ F8). unfold s7. apply has_upd. apply Hhas6, Hm.
-      * rewrite Hk9, Hk8. apply (Holdnd m Hm).
+    + split; [rewrite Hs9, (cpf_stabNum _ _ F8); exact Hstab7|]. split; [|split; [left; reflexivity|]].
+      * intros m Hm. split.
+        -- apply Hh9, (cpf_has _ _ F8). unfold s7. apply has_upd. apply Hhas6, Hm.
+        -- rewrite Hk9, Hk8. apply (Holdnd m Hm).
+      * intros _. destruct Hl9 as (l' & El' & Fl'). destruct (cpf_log _ _ F8) as (l & El & Fl).
+        change (log (upd s6 (S b) (set decl (fun _ => b :: option_list root)))) with (log s6) in El.
+        assert (Hi'' : inst s2 (Some b) x (nth (Z.to_nat (x mod Z.of_nat (length (b_cases (bd s b))))) (b_cases (bd s b)) TNil) = (s3, root))
+          by (rewrite Hbd; exact Hinst).
+        assert (Hlg6 : log s6 = EvBindFn b x root :: log s) by exact (run_fn_log p s b P Hp Hk Hg s2 Hinv x s3 root Hi'').
+        rewrite Hlg6 in El.
+        exists x, root, [], (l' ++ l). split; [rewrite El', El, <- app_assoc; reflexivity|].
+        split; [constructor|]. split; [apply Forall_app; auto|].
+        intros Hne n Hn. destruct (Hiv9 Hne n Hn) as [Hin Hnin].
+        rewrite El' in Hin. apply elem_of_app in Hin as [Hin|Hin]; [apply elem_of_app; left; exact Hin|contradiction].
 Qed.
 
 Theorem nc_bind fuel p s b :
@@ -9533,7 +9675,7 @@ Proof.
   assert (Hk1 : nkind (nd s1 b) = KBindLhs b) by (unfold s1; rewrite nd_upd_proj by reflexivity; exact Hk).
   assert (Hg1 : inGraph (nd s1 b) = true) by (unfold s1; rewrite nd_upd_proj by reflexivity; exact Hg).
   destruct (bind_full fuel p s1 b s3 e3 P1 (plan_ok_struct st s1 p (so_struct _ _ S1) Hp) Hk1 Hg1 H3)
-    as [Hr|(_ & _ & _ & _ & [->|[_ [k Hf]]])]; [right; exact Hr|left; reflexivity|].
+    as [Hr|(_ & _ & _ & _ & [->|[_ [k Hf]]] & _)]; [right; exact Hr|left; reflexivity|].
   exfalso. destruct (par_plan_clean_spec sop p b k Hc Hf) as [Hhb Hnl].
   destruct (Hq b Hhb) as [_ E]. apply (Hnl b). rewrite <- E. exact Hk.
 Qed.
@@ -11082,7 +11224,15 @@ Theorem runs_only_while_necessary s l_after e l_before n : Inv s ->
   log s = l_after ++ e :: l_before -> ev_runs e = Some n -> lastNU l_before n = Some true.
 Proof.
   intros HI El He. pose proof (lf_log s (inv_life s HI)) as H. rewrite El in H.
-  apply log_ok_suffix in H. destruct H as [H _]. destruct e; try discriminate; injection He as ->; exact H.
+  apply log_ok_suffix in H. destruct H as [H _]. destruct e; try discriminate; injection He as ->; apply H.
+Qed.
+
+(* C08: once a node has been invalidated, none of its functions runs again *)
+Theorem never_runs_after_invalidation s l_after e l_before n : Inv s ->
+  log s = l_after ++ e :: l_before -> ev_runs e = Some n -> EvInval n ∉ l_before.
+Proof.
+  intros HI El He. pose proof (lf_log s (inv_life s HI)) as H. rewrite El in H.
+  apply log_ok_suffix in H. destruct H as [H _]. destruct e; try discriminate; injection He as ->; apply H.
 Qed.
 
 Theorem registered_iff_last_necessary s n : Inv s -> (inGraph (nd s n) = true <-> lastNU (log s) n = Some true).
@@ -11135,6 +11285,28 @@ Proof. intros Hmh H. apply Inv_wfb. apply (Inv_run_clean mh os s Hmh H). Qed.
 Theorem wf_every_boundary_cond mh os s :
   bind_spec (fun _ => True) -> (0 < mh)%nat -> run_clean (init mh) os = Some s -> wfb s = true.
 Proof. intros _. apply wf_every_boundary. Qed.
+
+(** ** C08 over histories *)
+Theorem history_never_runs_after_invalidation mh os s l_after e l_before n :
+  (0 < mh)%nat -> run_clean (init mh) os = Some s ->
+  log s = l_after ++ e :: l_before -> ev_runs e = Some n -> EvInval n ∉ l_before.
+Proof. intros Hmh H. apply never_runs_after_invalidation, (Inv_run_clean mh os s Hmh H). Qed.
+
+(* the swap of a bind, from any state of a pass: between the bind function's event and the return
+   of the lhs-change node's recomputation nothing runs, and every node of the generation being
+   replaced is invalidated (hence, by the theorem above, never runs again) *)
+Theorem swap_log fuel p s b s' :
+  PInv s -> plan_ok s p = true -> nkind (nd s b) = KBindLhs b -> inGraph (nd s b) = true ->
+  bindLhsStabilize fuel p s b = Ok (s', None) ->
+  exists x root l1 l2,
+    log s' = l2 ++ EvBindFn b x root :: l1 ++ log s /\
+    Forall (fun ev => ev_runs ev = None) l1 /\ Forall (fun ev => ev_runs ev = None) l2 /\
+    (b_rhs (bd s b) <> None -> forall n, n ∈ b_rhsNodes (bd s b) -> EvInval n ∈ l2).
+Proof.
+  intros P Hp Hk Hg H.
+  destruct (bind_full fuel p s b s' None P Hp Hk Hg H) as [[?|?]|(_ & _ & _ & _ & _ & L)]; [discriminate|discriminate|].
+  apply L. reflexivity.
+Qed.
 
 (** ** C05: no operation of a clean history faults (ParallelStabilize excepted, see below);
        running out of the model's fuel is not excluded *)
